@@ -40,6 +40,8 @@ pub fn run_seed_for(base_seed: u64, engine: &str, run_index: u64) -> u64 {
 pub struct BatchCfg {
     pub base_seed: u64,
     pub tier: Tier,
+    /// first run index of this batch (sub-ranges are used to locate a run that kills the process)
+    pub start: u64,
     pub runs: u64,
     pub workers: usize,
     pub known_classes: Vec<String>,
@@ -54,8 +56,8 @@ struct Slot {
 
 pub fn run_batch(engine: &dyn Engine, cfg: &BatchCfg, shared: Arc<Shared>) -> BatchResult {
     let t0 = Instant::now();
-    let next = AtomicU64::new(0);
-    let limit = AtomicU64::new(cfg.runs);
+    let next = AtomicU64::new(cfg.start);
+    let limit = AtomicU64::new(cfg.start + cfg.runs);
     let found: Mutex<Option<Found>> = Mutex::new(None);
     let known_hits: Mutex<BTreeMap<String, (u64, u64)>> = Mutex::new(BTreeMap::new());
     let samples: Mutex<Vec<(u64, Value)>> = Mutex::new(Vec::new());
@@ -105,7 +107,7 @@ pub fn run_batch(engine: &dyn Engine, cfg: &BatchCfg, shared: Arc<Shared>) -> Ba
                             .store(t0.elapsed().as_millis() as u64, Ordering::Relaxed);
                         slots[w].run_plus1.store(i + 1, Ordering::Release);
                         acc.begin_run(seed);
-                        let want_case = (i as usize) < cfg.want_samples;
+                        let want_case = ((i - cfg.start) as usize) < cfg.want_samples;
                         let out = engine.run_seed(seed, cfg.tier, want_case, &mut acc);
                         slots[w].run_plus1.store(0, Ordering::Release);
                         runs_done.fetch_add(1, Ordering::Relaxed);
